@@ -55,6 +55,14 @@ CHECKS = {
          "Random 200-step histories over a pool of up to 64 shared items, data messages and control messages; after every step the harness overwrites every slice/map it passed in or got back and re-reads every pooled object through all public observers; any difference from the snapshot taken at creation is a violation.",
          "State = what the public observers return; histories are random, not exhaustive.",
          "DESIGN.md §5 C11"),
+ "C04": ("exploration", "round-trip monitor print->parse->compare (both directions), documented print form as reference, completion with a common assignment",
+         "Messages over all stream/function pairs, wait-bit states, directions, recognised names and generated trees (variables, bounded ASCII variables, nested ellipses, every character 0..127) are printed, the print compared with the documented form, parsed (one message, no error, no warning), compared field by field and by bytes after completing both sides alike; accepted texts in varied literal forms/layouts are checked to be fixed points of parse-print-parse.",
+         "Names come from a recogniser of what the header lexer reads as one name; variable names avoid SML keywords; ellipsis names are compared by position.",
+         "DESIGN.md §5 C04"),
+ "C05": ("exploration", "value-to-text generator with a priori expected values; three-class oracle (valid / invalid / unspecified)",
+         "Texts are generated from values in every documented literal form, layout and letter case; valid texts must parse to exactly the generating model (printed form, encoded bytes, variables), texts with one unrepresentable literal (each boundary +-1, 1e20, 1e400, fractions, wrong token kinds, malformed numbers, non-ASCII) in every position of arrays of length 0..8 must give an error and no message; undocumented forms may be rejected or read plausibly, never as a third value.",
+         "Expected values come from the generator (value -> text), never from parsing; which forms are 'documented' is stated in DESIGN.md.",
+         "DESIGN.md §5 C05"),
 }
 
 NOT_YET = {}
